@@ -39,18 +39,20 @@ POOL = {
     "np.nat": np.datetime64("NaT"), "np.tdnat": np.timedelta64("NaT"),
     # numbers NumPy has a dtype for but the library no missing value: with a missing element next to them they stay objects
     "complex": 1 + 2j,
+    # an object that compares equal to everything, None included (`unittest.mock.ANY`, a user's wildcard class): a value
+    "any": __import__("unittest.mock").mock.ANY,
 }
 NAT_NAMES = ("np.nat", "np.tdnat", "complex")
 KIND = {"None": "none", "nan": "nan", "True": "bool", "False": "bool", "1": "int", "big": "int", "1.5": "float", "a": "str", "empty": "str",
         "date": "date", "datetime": "datetime", "timedelta": "timedelta", "bytes": "bytes", "tuple": "obj", "np.bool": "npbool",
         "np.int": "npint", "np.float": "npfloat", "np.nan": "npnan", "np.dt": "npdt", "np.str": "npstr",
-        "inf": "float", "-inf": "float", "-0.0": "float", "huge": "float", "stamp": "datesub", "day": "datesub", "np.nat": "npnat", "np.tdnat": "nptdnat", "complex": "complex"}
+        "inf": "float", "-inf": "float", "-0.0": "float", "huge": "float", "stamp": "datesub", "day": "datesub", "np.nat": "npnat", "np.tdnat": "nptdnat", "complex": "complex", "any": "obj"}
 DTYPES = [None, "bool", "int", "float", "str", "object", "datetime64[D]", "datetime64[us]", "timedelta64[s]", "StringDType()"]
 FAMILIES = [["True", "False"], ["1", "big"], ["1.5", "1"], ["a", "empty"], ["date"], ["datetime"], ["timedelta"], ["bytes"], ["tuple", "1"],
             ["np.bool"], ["np.int"], ["np.float", "np.nan"], ["np.dt"], ["np.str"], ["True", "1"], ["1", "a"], ["date", "datetime"],
             ["True", "1.5"], ["a", "1.5"], ["1.5", "inf", "-inf"], ["inf", "-0.0", "huge", "1"],
             ["stamp"], ["day"], ["stamp", "datetime"], ["day", "date"],
-            ["np.nat"], ["np.nat"], ["np.nat", "np.dt"], ["np.nat", "date"], ["np.tdnat"], ["date", "1"], ["date", "a"], ["datetime", "1.5"], ["date", "timedelta"], ["complex"], ["complex", "1.5"], ["complex", "1"]]
+            ["np.nat"], ["np.nat"], ["np.nat", "np.dt"], ["np.nat", "date"], ["np.tdnat"], ["date", "1"], ["date", "a"], ["datetime", "1.5"], ["date", "timedelta"], ["any", "1"], ["any", "a"], ["any"], ["complex"], ["complex", "1.5"], ["complex", "1"]]
 
 
 def gen_case(rng, tier):
@@ -171,9 +173,13 @@ def impl(case):
     vals = [POOL[n] for n in case["names"]]
     res = {}
     try:
-        v = di.Vector(list(vals), np_dtype(case["dtype"]))
+        arg = list(vals)
+        v = di.Vector(arg, np_dtype(case["dtype"]))
     except Exception as e:
         return {"err": f"{type(e).__name__}: {e}"}
+    # the caller's list is an argument: the same objects at the same positions afterwards (a second vector built from it sees
+    # what the first one saw)
+    res["arg_unchanged"] = len(arg) == len(vals) and all(a is b for a, b in zip(arg, vals))
     from harness import warm
     if warm.ENABLED:
         warm.vector_through_history(v)
@@ -290,6 +296,8 @@ def judge(ctx, case, obs, mouts):
             pass
         return
     ctx.count("class:" + obs["dclass"])
+    if obs.get("arg_unchanged") is False:
+        ctx.violation("oracle", "construct:argument-changed", f"Vector({names}) changed the list it was given", case, obs)
     if kinds and kinds <= {"npbool"} and any(miss) and dtype is None:
         cls = "npbool-with-missing"
     elif obs["dclass"] == "object" and dtype is None and any(miss) and \
